@@ -1,4 +1,5 @@
 import AsyncVerif.Proofs.Core
+import AsyncVerif.Proofs.TwinMore
 /-!
 # C05 — laziness: sources pulled and callables invoked in the stdlib's order
 
@@ -66,6 +67,11 @@ theorem C05_zip_longest (fillv : Val) (srcs : List Nat) (fuel : Nat) :
 
 theorem C05_iter_sentinel (f : Nat) (sentinel : Val) (fuel : Nat) :
     Twin (Impl.iterSentinel f sentinel fuel) (Std.iterSentinel f sentinel fuel) := Twin.refl _
+
+/-- `cycle`: the first pass is scoped, the replay phase touches only the consumer -/
+theorem C05_cycle (s fuel : Nat) : Twin (Impl.cycle s fuel) (Std.cycle s fuel) := by
+  unfold Impl.cycle Std.cycle
+  exact twin_bind_visOnly (fun w => tryFinally_quiet _ _ (closeSrc_quiet s) w) (fun buf => visOnly_replay buf fuel [])
 
 theorem C05_all (s fuel : Nat) : Twin (Impl.all s fuel) (Std.allLoop s fuel) := scopedIter_twin s _
 theorem C05_any (s fuel : Nat) : Twin (Impl.any s fuel) (Std.anyLoop s fuel) := scopedIter_twin s _
